@@ -105,6 +105,11 @@ def sibling_pairs(ctx, rep, rule: str, pairs: list[tuple[str, str, str]], tail_i
     """pairs: (class A, class B, method).  Each pair must be canonically equal."""
     repo = ctx.repo
     n = 0
+    import os as _os
+
+    if _os.environ.get("SV_NO_SIBLING"):  # measurement switch only (tools/matrix.py): which seeds are reported by nothing but this proxy
+        rep.ob(rule, "sibling:disabled", True, "", "sibling differ disabled by SV_NO_SIBLING (measurement run)", nontrivial=False)
+        return
     for a, b, meth in pairs:
         fa = repo.lookup_method(repo.cls(a), meth)  # own or inherited: copies merged into a shared base agree trivially
         fb = repo.lookup_method(repo.cls(b), meth)
